@@ -20,6 +20,7 @@ var propTable = map[string]propFn{
 	"C06": checkC06,
 	"C07": checkC07,
 	"C08": checkC08,
+	"C09": checkC09,
 	"C10": checkC10,
 	"C11": checkC11,
 	"C12": checkC12,
